@@ -22,7 +22,7 @@ import Hv.Basic.LTS
 namespace Hv.Life
 
 structure Cfg where
-  /-- Destroy re-checks emptiness after the vigil drain and gives up when a record appeared -/
+  /-- the auto-destroy re-checks emptiness after the vigil drain and closes the swamp instead when a record appeared -/
   destroyRechecks : Bool
   /-- handing out an instance and taking the vigil are one step under the lock that also covers the
       listener's idle decision and the `closing` flip (so the decision sees every touch) -/
@@ -115,7 +115,8 @@ def step (cfg : Cfg) (s : St) : Act → Option St
     if (s.th t).pc != 4 then none else
     if !s.holders.isEmpty then none      -- WaitForActiveVigilsClosed
     else if cfg.destroyRechecks && !s.mem.isEmpty then
-      some { s with closing := false, destroying := false, th := setT s.th t { s.th t with pc := 3 } }
+      -- not empty any more: close (flush + unmap) instead of deleting; `closing` stays set
+      some { s with stage := 1, destroying := false, th := setT s.th t { s.th t with pc := 3 } }
     else
       some { s with file := [], live := false, th := setT s.th t { s.th t with pc := 3 } }
   | .tickRead => some { s with armed := true, touched := false }
